@@ -96,11 +96,15 @@ CLAIMED = {
     "C09": entry(
         "one READ takes the constant under the pointer and advances it by one, touching nothing else; k READs deliver the next k constants in order; "
         "reading past the end is OUT OF DATA and changes nothing; RESTORE sets the pointer to the resolved data address, CLEAR rewinds it; a line's "
-        "symbol records the number of constants before the line; appending a fragment appends its constants (Props/C09.v).",
+        "symbol records the number of constants before the line; appending a fragment appends its constants; and, by induction over all statement kinds "
+        "of the code generator and over all programs: the data segment of a program compiled without error and linked is the DATA constants in source "
+        "order (= Sem.all_data), wherever the DATA lines sit, and the data address a RESTORE n receives is the number of constants in the lines before n "
+        "(= Sem.data_index_of_line n) (Props/C09.v; Proofs/DataRead.v, DataSeg.v, SymSeg.v).",
         "programs with DATA lines anywhere, RESTORE / RESTORE n sequences and edit histories on model and crate, compared with Spec/Sem.v whose DATA "
         "list is the constants in source order.",
-        "Not proved: that the data segment of a whole compiled program is the concatenation of its DATA statements in source order.",
-        "Coq theorems on the DATA pointer + model/implementation/reference-semantics differential check"),
+        "The segment theorem assumes every DATA item is a constant (literal or negated literal: what the parser accepts, not proved) and no compile error; "
+        "conversion of the value read to the variable's type is the shared OpPop path (C06 theorems); edit histories are decided differentially.",
+        "Coq theorems on the DATA pointer and on the data segment of all compiled programs + model/implementation/reference-semantics differential check"),
     "C10": entry(
         "the error cases of a call (undefined function, wrong argument count, DEF at the prompt) and the return protocol (the body's value is kept, "
         "everything down to the return address is dropped, control returns to the saved address, variables untouched); mangled parameter names "
@@ -189,7 +193,8 @@ CLAIMED = {
     "C20": entry(
         "appending a fragment places its code unchanged behind the existing code; linking patches every recorded reference whose symbol is defined with "
         "that symbol's address, touches no other instruction and changes only the address operand; a line symbol records the address at which the line "
-        "starts, whatever precedes it (Props/C20.v, Proofs/Reloc.v).",
+        "starts, whatever precedes it; for whole programs of any statements compiled without error: statement code defines only negative local symbols, "
+        "so the symbol of line n is the address where the code of the lines before n ends, whatever lines come before or after (Props/C20.v, Proofs/Reloc.v, SymSeg.v).",
         "generated programs under REM / empty / unreachable line insertion, line splitting, other numberings (including from line 0 with references to the "
         "first line), extra program text behind a direct statement, direct vs one-line-program execution, on model and crate; transcripts must agree modulo "
         "reported line numbers.",
